@@ -2,7 +2,7 @@ _RUNS = ["skipWs", "skipNumbers", "skipAlpha", "skipHexNum", "skipOctNum", "skip
 _PROPS = ["C13", "C01"]
 def _j(fn, what, **kw):
     d = dict(name="lexer." + fn, props=list(_PROPS), kind="P", harness="h_lexer.c", entry="h_" + fn, enforce=fn,
-             contracts=["lexer.h"], loops=True, defines=["LEX_BYTES"], solver="minisat", what=what, replayer="lexer", timeout=300)
+             contracts=["lexer.h"], loops=True, defines=["LEX_BYTES"], solver="minisat", what=what, replayer="lexer", timeout=900)
     d.update(kw)
     return d
 JOBS = [_j(f, "character-class run: displacement, class content (witness), local maximality, termination measure; length <= 10^6, all byte values",
